@@ -1202,3 +1202,230 @@ Proof.
     unfold common_ok_b in H3. apply andb_true_iff in H3. destruct H3 as (A & B).
     split; [apply sorted_in_b_sound; exact A|apply slot_apart_b_sound; exact B].
 Qed.
+
+(* ================================================================ find_common_range, pointwise *)
+(* frequency f lies in (resp. strictly inside) one of the bands *)
+Definition inb (f : Q) (l : list band) : Prop := exists b, In b l /\ (fst b <= f)%Q /\ (f <= snd b)%Q.
+Definition sinb (f : Q) (l : list band) : Prop := exists b, In b l /\ (fst b < f)%Q /\ (f < snd b)%Q.
+
+Lemma Qltb_true a b : Qltb a b = true <-> (a < b)%Q.
+Proof.
+  unfold Qltb. rewrite negb_true_iff. split.
+  - intros H. apply Qnot_le_lt. intros Hle. apply Qle_bool_iff in Hle. congruence.
+  - intros H. destruct (Qle_bool b a) eqn:E; [|reflexivity]. apply Qle_bool_iff in E.
+    exfalso. apply (Qlt_irrefl a). apply Qlt_le_trans with b; assumption.
+Qed.
+
+Lemma Qltb_false a b : Qltb a b = false <-> (b <= a)%Q.
+Proof.
+  unfold Qltb. rewrite negb_false_iff. apply Qle_bool_iff.
+Qed.
+
+Lemma qmax_le a b f : (qmax a b <= f)%Q <-> (a <= f)%Q /\ (b <= f)%Q.
+Proof.
+  unfold qmax. destruct (Qltb a b) eqn:E.
+  - apply Qltb_true in E. split; [intros H; split; [apply Qle_trans with b; [apply Qlt_le_weak|]|]; assumption|tauto].
+  - apply Qltb_false in E. split; [intros H; split; [|apply Qle_trans with a]; assumption|tauto].
+Qed.
+
+Lemma qmax_lt a b f : (qmax a b < f)%Q <-> (a < f)%Q /\ (b < f)%Q.
+Proof.
+  unfold qmax. destruct (Qltb a b) eqn:E.
+  - apply Qltb_true in E. split; [intros H; split; [apply Qlt_trans with b|]; assumption|tauto].
+  - apply Qltb_false in E. split; [intros H; split; [|apply Qle_lt_trans with a]; assumption|tauto].
+Qed.
+
+Lemma qmin_ge a b f : (f <= qmin a b)%Q <-> (f <= a)%Q /\ (f <= b)%Q.
+Proof.
+  unfold qmin. destruct (Qltb b a) eqn:E.
+  - apply Qltb_true in E. split; [intros H; split; [apply Qle_trans with b; [|apply Qlt_le_weak]|]; assumption|tauto].
+  - apply Qltb_false in E. split; [intros H; split; [|apply Qle_trans with a]; assumption|tauto].
+Qed.
+
+Lemma qmin_gt a b f : (f < qmin a b)%Q <-> (f < a)%Q /\ (f < b)%Q.
+Proof.
+  unfold qmin. destruct (Qltb b a) eqn:E.
+  - apply Qltb_true in E. split; [intros H; split; [apply Qlt_trans with b|]; assumption|tauto].
+  - apply Qltb_false in E. split; [intros H; split; [|apply Qlt_le_trans with a]; assumption|tauto].
+Qed.
+
+Lemma In_intersect x c b :
+  In x (intersect c b) <->
+  exists first second, In first c /\ In second b /\
+    x = (qmax (fst first) (fst second), qmin (snd first) (snd second)) /\
+    Qltb (qmax (fst first) (fst second)) (qmin (snd first) (snd second)) = true.
+Proof.
+  unfold intersect. rewrite in_flat_map. split.
+  - intros (first & Hf & Hx). apply in_flat_map in Hx. destruct Hx as (second & Hs & Hx).
+    destruct (Qltb _ _) eqn:E; [|destruct Hx]. destruct Hx as [<-|[]]. exists first, second. auto.
+  - intros (first & second & Hf & Hs & -> & E). exists first. split; [exact Hf|]. apply in_flat_map.
+    exists second. split; [exact Hs|]. rewrite E. left. reflexivity.
+Qed.
+
+Lemma inb_intersect f c b : inb f (intersect c b) -> inb f c /\ inb f b.
+Proof.
+  intros (x & Hx & H1 & H2). apply In_intersect in Hx. destruct Hx as (first & second & Hf & Hs & -> & _).
+  cbn [fst snd] in *. apply qmax_le in H1. apply qmin_ge in H2.
+  split; [exists first|exists second]; tauto.
+Qed.
+
+Lemma sinb_intersect f c b : sinb f c -> sinb f b -> sinb f (intersect c b).
+Proof.
+  intros (first & Hf & A1 & A2) (second & Hs & B1 & B2).
+  exists (qmax (fst first) (fst second), qmin (snd first) (snd second)). cbn [fst snd].
+  assert (L : (qmax (fst first) (fst second) < f)%Q) by (apply qmax_lt; tauto).
+  assert (R : (f < qmin (snd first) (snd second))%Q) by (apply qmin_gt; tauto).
+  split; [|tauto]. apply In_intersect. exists first, second. repeat split; try assumption.
+  apply Qltb_true. apply Qlt_trans with f; assumption.
+Qed.
+
+Lemma fold_intersect_sound f u : forall c, inb f (fold_left intersect u c) -> inb f c /\ forall a, In a u -> inb f a.
+Proof.
+  induction u as [|b t IH]; intros c H; cbn [fold_left] in H; [split; [exact H|intros a []]|].
+  destruct (IH _ H) as (H1 & H2). apply inb_intersect in H1. destruct H1 as (Hc & Hb).
+  split; [exact Hc|]. intros a [<-|Ha]; auto.
+Qed.
+
+Lemma fold_intersect_complete f u : forall c, sinb f c -> (forall a, In a u -> sinb f a) -> sinb f (fold_left intersect u c).
+Proof.
+  induction u as [|b t IH]; intros c Hc Hu; cbn [fold_left]; [exact Hc|].
+  apply IH; [apply sinb_intersect; [exact Hc|apply Hu; left; reflexivity]|intros a Ha; apply Hu; right; exact Ha].
+Qed.
+
+(* sorted(key=...) is a permutation *)
+Lemma In_insert_by {A} (le : A -> A -> bool) x l y : In y (insert_by le x l) <-> y = x \/ In y l.
+Proof.
+  induction l as [|a t IH]; cbn [insert_by].
+  - cbn. intuition.
+  - destruct (le a x); cbn [In]; [rewrite IH|]; intuition.
+Qed.
+
+Lemma In_sort_by {A} (le : A -> A -> bool) l y : In y (sort_by le l) <-> In y l.
+Proof.
+  unfold sort_by.
+  assert (H : forall acc, In y (fold_left (fun acc x => insert_by le x acc) l acc) <-> In y l \/ In y acc).
+  { induction l as [|a t IH]; intros acc; cbn [fold_left]; [cbn; tauto|].
+    rewrite IH, In_insert_by. cbn [In]. intuition. }
+  rewrite H. cbn. tauto.
+Qed.
+
+Lemma inb_sort f l : inb f (sort_bands l) <-> inb f l.
+Proof. unfold inb, sort_bands. split; intros (b & Hb & H); exists b; (split; [apply In_sort_by in Hb || apply In_sort_by; exact Hb|exact H]). Qed.
+Lemma sinb_sort f l : sinb f (sort_bands l) <-> sinb f l.
+Proof. unfold sinb, sort_bands. split; intros (b & Hb & H); exists b; (split; [apply In_sort_by in Hb || apply In_sort_by; exact Hb|exact H]). Qed.
+
+(* remove_duplicates keeps a representative (equal band for band) of every amplifier *)
+Lemma bands_eqb_refl a : bands_eqb a a = true.
+Proof.
+  induction a as [|[lo hi] t IH]; [reflexivity|]. cbn [bands_eqb]. rewrite IH. unfold band_eqb. cbn [fst snd].
+  rewrite !Qeq_bool_refl. reflexivity.
+Qed.
+
+Lemma bands_eqb_inb f a : forall a', bands_eqb a a' = true -> inb f a -> inb f a'.
+Proof.
+  induction a as [|x t IH]; intros [|x' t'] E; cbn [bands_eqb] in E; try discriminate; [intros (b & [] & _)|].
+  apply andb_true_iff in E. destruct E as (E1 & E2). unfold band_eqb in E1. apply andb_true_iff in E1.
+  destruct E1 as (Ea & Eb). apply Qeq_bool_eq in Ea. apply Qeq_bool_eq in Eb.
+  intros (b & [<-|Hb] & H1 & H2).
+  - exists x'. split; [left; reflexivity|]. rewrite <- Ea, <- Eb. tauto.
+  - destruct (IH t' E2) as (b' & Hb' & H'); [exists b; tauto|]. exists b'. split; [right; exact Hb'|exact H'].
+Qed.
+
+Lemma dedupe_incl l : forall seen a, In a (dedupe l seen) -> In a l.
+Proof.
+  induction l as [|x t IH]; intros seen a H; cbn [dedupe] in H; [destruct H|].
+  destruct (existsb (bands_eqb x) seen).
+  - right. eapply IH. exact H.
+  - destruct H as [<-|H]; [left; reflexivity|right; eapply IH; exact H].
+Qed.
+
+Lemma dedupe_repr l : forall seen a, In a l -> exists a', In a' (seen ++ dedupe l seen) /\ bands_eqb a a' = true.
+Proof.
+  induction l as [|x t IH]; intros seen a Ha; [destruct Ha|]. cbn [dedupe].
+  destruct (existsb (bands_eqb x) seen) eqn:E.
+  - destruct Ha as [<-|Ha]; [|apply IH; exact Ha].
+    apply existsb_exists in E. destruct E as (a' & Ha' & Eq). exists a'. split; [apply in_or_app; left; exact Ha'|exact Eq].
+  - destruct Ha as [<-|Ha].
+    + exists x. split; [apply in_or_app; right; left; reflexivity|apply bands_eqb_refl].
+    + destruct (IH (seen ++ [x]) a Ha) as (a' & Ha' & Eq). exists a'. split; [|exact Eq].
+      rewrite <- app_assoc in Ha'. exact Ha'.
+Qed.
+
+(* a frequency inside a common band lies inside a band of every amplifier; a frequency strictly inside a band of
+   every amplifier lies strictly inside a common band (band edges shared by two amplifiers are dropped by the
+   strict test f_min < f_max of the code) *)
+Theorem find_common_range_sound amps si f :
+  amps <> [] -> inb f (find_common_range amps si) -> forall amp, In amp amps -> inb f amp.
+Proof.
+  intros Hne H amp Hamp. unfold find_common_range in H.
+  destruct (dedupe (map sort_bands amps) []) as [|c0 t] eqn:Eu.
+  { exfalso. destruct (dedupe_repr (map sort_bands amps) [] (sort_bands amp)) as (a' & Ha' & _);
+      [apply in_map; exact Hamp|]. rewrite Eu in Ha'. destruct Ha'. }
+  apply (proj1 (inb_sort _ _)) in H. apply fold_intersect_sound in H. destruct H as (_ & H).
+  destruct (dedupe_repr (map sort_bands amps) [] (sort_bands amp)) as (a' & Ha' & Eq); [apply in_map; exact Hamp|].
+  cbn [app] in Ha'. rewrite Eu in Ha'. apply (proj1 (inb_sort f amp)).
+  apply (bands_eqb_inb f a' (sort_bands amp)); [|apply H; exact Ha'].
+  (* symmetry of the representative relation, pointwise *)
+  clear - Eq. revert a' Eq. induction (sort_bands amp) as [|x t IH]; intros [|x' t'] E; cbn [bands_eqb] in *; try discriminate; [reflexivity|].
+  apply andb_true_iff in E. destruct E as (E1 & E2). rewrite (IH t' E2). unfold band_eqb in *.
+  apply andb_true_iff in E1. destruct E1 as (Ea & Eb). apply Qeq_bool_eq in Ea. apply Qeq_bool_eq in Eb.
+  rewrite (proj2 (Qeq_bool_iff _ _) (Qeq_sym _ _ Ea)), (proj2 (Qeq_bool_iff _ _) (Qeq_sym _ _ Eb)). reflexivity.
+Qed.
+
+Theorem find_common_range_complete amps si f :
+  amps <> [] -> (forall amp, In amp amps -> sinb f amp) -> sinb f (find_common_range amps si).
+Proof.
+  intros Hne H. unfold find_common_range.
+  destruct (dedupe (map sort_bands amps) []) as [|c0 t] eqn:Eu.
+  { exfalso. destruct amps as [|amp amps']; [congruence|].
+    destruct (dedupe_repr (map sort_bands (amp :: amps')) [] (sort_bands amp)) as (a' & Ha' & _); [left; reflexivity|].
+    rewrite Eu in Ha'. destruct Ha'. }
+  assert (Hu : forall a, In a (c0 :: t) -> sinb f a).
+  { intros a Ha. rewrite <- Eu in Ha. apply dedupe_incl in Ha. apply in_map_iff in Ha. destruct Ha as (amp & <- & Hamp).
+    apply (proj2 (sinb_sort f amp)). apply H. exact Hamp. }
+  apply (proj2 (sinb_sort f _)). apply fold_intersect_complete; [apply Hu; left; reflexivity|exact Hu].
+Qed.
+
+(* no amplifier on the OMS: the SI band *)
+Theorem find_common_range_default si : find_common_range [] si = [si].
+Proof. reflexivity. Qed.
+
+(* ================================================================ FREE <-> inside the amplifiers' common band *)
+Definition oms_amps (g : graph) (els : list Z) : list (list band) :=
+  flat_map (fun u => match lookup g u with
+                     | Some n => if kind_eqb (kind n) KAmp then [abands n] else []
+                     | None => [] end) els.
+
+Lemma in_bands_inb grid common n : in_bands grid common n = true <-> inb (nvalue_to_frequency n grid) common.
+Proof.
+  unfold in_bands, inb. rewrite existsb_exists. split; intros (b & Hb & H); exists b; (split; [exact Hb|]).
+  - apply andb_true_iff in H. rewrite !Qle_bool_iff in H. exact H.
+  - apply andb_true_iff. rewrite !Qle_bool_iff. exact H.
+Qed.
+
+Lemma sinb_inb f l : sinb f l -> inb f l.
+Proof. intros (b & Hb & H1 & H2). exists b. split; [exact Hb|]. split; apply Qlt_le_weak; assumption. Qed.
+
+(* on an OMS with amplifiers whose common band edges are on the grid: every cell of the map is FREE or UNUSABLE;
+   FREE implies that the slot's nominal frequency lies in a band of every amplifier of the OMS, and a slot whose
+   frequency lies strictly inside a band of every amplifier is FREE *)
+Theorem free_iff_common g si fmin fmax l b n :
+  map_ok g si fmin fmax l b ->
+  oms_amps g (line_path l) <> [] ->
+  Forall (fun c => on_grid default_grid (fst c) /\ on_grid default_grid (snd c)) (elements_common_range g (line_path l) si) ->
+  frequency_to_n fmin default_grid <= n <= frequency_to_n fmax default_grid ->
+  let f := nvalue_to_frequency n default_grid in
+  (cell_at b n = Some SF \/ cell_at b n = Some SU) /\
+  (cell_at b n = Some SF -> forall amp, In amp (oms_amps g (line_path l)) -> inb f amp) /\
+  ((forall amp, In amp (oms_amps g (line_path l)) -> sinb f amp) -> cell_at b n = Some SF).
+Proof.
+  intros (_ & _ & _ & _ & _ & Hcell) Hne Hgrid Hn f. specialize (Hcell n Hn).
+  rewrite (in_bands_slots default_grid _ n ltac:(reflexivity) Hgrid) in Hcell.
+  change (elements_common_range g (line_path l) si) with (find_common_range (oms_amps g (line_path l)) si) in *.
+  destruct (in_bands default_grid (find_common_range (oms_amps g (line_path l)) si) n) eqn:E.
+  - split; [left; exact Hcell|]. split; [|intros _; exact Hcell].
+    intros _. apply in_bands_inb in E. apply (find_common_range_sound _ si _ Hne E).
+  - split; [right; exact Hcell|]. split; [rewrite Hcell; discriminate|].
+    intros H. exfalso. apply (find_common_range_complete _ si f Hne) in H. apply sinb_inb in H.
+    apply in_bands_inb in H. fold f in H. congruence.
+Qed.
